@@ -423,17 +423,26 @@ func safely(d time.Duration, f func() error) (err error, panicked interface{}, s
 	// The readers under test never block: a hang is an endless loop, which burns processor time.  The watchdog
 	// therefore counts the process's CPU time (a loaded machine slows the wall clock, not the verdict), with a
 	// generous wall-clock cap on top.
+	// A reader blocked on a lock burns nothing: that shows as a stretch of wall-clock time without processor time.
 	cpu0 := cpuTime()
 	t0 := time.Now()
 	tick := time.NewTicker(250 * time.Millisecond)
 	defer tick.Stop()
+	winStart, winCPU := t0, cpu0
 	for {
 		select {
 		case r := <-ch:
 			return r.err, r.p, r.stack, false
-		case <-tick.C:
-			if cpuTime()-cpu0 > d || time.Since(t0) > 8*d {
+		case now := <-tick.C:
+			cpu := cpuTime()
+			if cpu-cpu0 > d || now.Sub(t0) > 8*d {
 				return nil, nil, "", true
+			}
+			if now.Sub(winStart) >= 20*time.Second {
+				if cpu-winCPU < 200*time.Millisecond {
+					return nil, nil, "", true // 20 s without running: blocked
+				}
+				winStart, winCPU = now, cpu
 			}
 		}
 	}
